@@ -294,6 +294,34 @@ def check(model, rep, tier):
   rules_df.check_driver(model, rep, 'TI-DRIVER')
   _c05.asdl_rule(model, rep, 'TI-ASDL', [TI])
 
+  # the types a nested function inherits from its context exclude every name
+  # the function binds itself (parameters included)
+  ai = model.func(TI, 'Analyzer.__init__')
+  comps = [c for c in ast.walk(ai.node) if isinstance(c, ast.DictComp) and
+           len(c.generators) == 1 and core.norm(c.generators[0].iter).endswith('.items()')
+           and 'closure_types' in core.norm(c.generators[0].iter)]
+  ok = len(comps) == 1
+  facts_ = {}
+  if ok:
+    g0 = comps[0].generators[0]
+    key = g0.target.elts[0].id if isinstance(g0.target, ast.Tuple) and isinstance(
+        g0.target.elts[0], ast.Name) else None
+    facts_['conditions'] = [core.norm(i) for i in g0.ifs]
+    # some conjunct must be `key not in <scope>.bound` (possibly a superset)
+    ok = key is not None and any(
+        isinstance(i, ast.Compare) and len(i.ops) == 1 and isinstance(i.ops[0], ast.NotIn)
+        and core.norm(i.left) == key and any(
+            isinstance(x, ast.Attribute) and x.attr == 'bound'
+            for x in ast.walk(i.comparators[0])) and not any(
+                isinstance(x, ast.BinOp) and isinstance(x.op, (ast.Sub, ast.BitAnd))
+                for x in ast.walk(i.comparators[0]))
+        for i in g0.ifs)
+  rep.check(ok, 'TI-CLOSURE', '%s:context-excludes-bound-names' % ai.site,
+            'a name the nested function binds itself (a parameter, a local) does '
+            'not inherit the type of the captured variable of the same name',
+            facts_, line=ai.node.lineno,
+            witness="x = 'label'; def scale(x): y = x  -- called with an int")
+
   # ---------------------------------------------------------------- dependencies
   rep.depends('C05', None,
               'types are joined along the edges of this graph: a missing edge '
